@@ -222,7 +222,10 @@ func checkC11(c *Ctx) {
 	}
 	flowC11(c)
 	c.Run.Advisory("R3.isnetid-flow", "R3.isnetid")
-	c11TextE1(c)
+	c11TextE1(c, "R5.text")
+	c11SQLE1(c, "R6.sql")
+	// the identifier codec rule recognises one way of writing these codecs; what they compute is decided by R5 and R6
+	c.Run.Advisory("R4.codecs", "R5.text", "R6.sql")
 }
 
 func tryCall(in *absint.Interp, cell *absint.Cell, T interface{ String() string }, name string, args ...absint.Value) (res []absint.Value, err error) {
